@@ -343,4 +343,54 @@ theorem flowG_unbondB (h h' : HubSt) (e : HubEnv) (amount : Nat) (user : Addr) (
 
 
 
+/-- **every minting / redeeming hub entry point (the triggers), slash pending or not**: the true ratios
+    of the pools the handler's own slashing check produces are carried to the pools it leaves, with
+    what it emits in flight -/
+theorem hub_flowG (h h' : HubSt) (e : HubEnv) (sender : Addr) (funds : List (Denom × Nat)) (m : HubMsg)
+    (ms : List Msg) (hx : hubExec h e sender funds m = .ok (h', ms))
+    (htr : Trg (.wasm sender hubA (.hub m) funds) = true)
+    (hself : e.self = hubA) (hb : h.bsei = some bseiA) (hs : h.stsei = some stseiA)
+    (bs ss : Nat) (hbs : e.supplyOf bseiA = .ok bs) (hss : e.supplyOf stseiA = .ok ss)
+    (st0 : HubSt) (hst0 : h.actualState e = .ok st0)
+    (hd : e.delegations ≠ []) (hz : h.bBond + h.sBond ≠ 0)
+    (trb : TR (rateOf st0.bBond bs h.reqB) st0.bBond bs h.reqB 0 0)
+    (trs : TR (rateOf st0.sBond ss h.reqS) st0.sBond ss h.reqS 0 0) :
+    TR (rateOf st0.bBond bs h.reqB) h'.bBond bs h'.reqB (mintsTo bseiA ms) (burnsBy bseiA ms) ∧
+    TR (rateOf st0.sBond ss h.reqS) h'.sBond ss h'.reqS (mintsTo stseiA ms) (burnsBy stseiA ms) := by
+  cases m with
+  | bond =>
+    simp only [hubExec] at hx; split at hx
+    · cases hx
+    · exact flowG_bondB h h' e sender funds ms hx hself hb hs bs ss hbs hss st0 hst0 hd hz _ trb trs
+  | bondForStSei =>
+    simp only [hubExec] at hx; split at hx
+    · cases hx
+    · exact flowG_bondS h h' e sender funds ms hx hself hb hs bs ss hbs hss st0 hst0 hd hz _ trb trs
+  | receive user amt hook =>
+    simp only [hubExec] at hx
+    split at hx
+    · cases hx
+    · exc_norm at hx
+      split at hx
+      · cases hx
+      · split at hx
+        · cases hx
+        · cases hook with
+          | other => simp only [] at hx; cases hx
+          | convert =>
+            simp only [] at hx
+            split at hx
+            · exact flowG_convertBS h h' e amt user ms hx hself hb hs bs ss hbs hss st0 hst0 hd hz trb trs
+            · split at hx
+              · exact flowG_convertSB h h' e amt user ms hx hself hb hs bs ss hbs hss st0 hst0 hd hz trb trs
+              · cases hx
+          | unbond =>
+            simp only [] at hx
+            split at hx
+            · exact flowG_unbondB h h' e amt user ms hx hself hb hs bs ss hbs hss st0 hst0 hd hz trb trs
+            · split at hx
+              · exact flowG_unbondS h h' e amt user ms hx hself hb hs bs ss hbs hss st0 hst0 hd hz trb trs
+              · cases hx
+  | _ => simp [Trg] at htr
+
 end Krp
